@@ -811,7 +811,11 @@ func (x *EvalCtx) callExpr(n *ECall) Val {
 		a, b := x.eval(n.Args[0]), x.eval(n.Args[1])
 		x.s.c.declare("headerLine", "(declare-fun headerLine (Str Str) Bool)")
 		return Val{T: boolT, S: app("headerLine", a.S, b.S)}
-	case "headerValue", "statusCode":
+	case "isMediaType":
+		a := x.eval(n.Args[0])
+		x.s.c.declare("isMediaType", "(declare-fun isMediaType (Str) Bool)")
+		return Val{T: boolT, S: app("isMediaType", a.S)}
+	case "headerValue", "statusCode", "mtEssence", "mtSuper", "mtSub":
 		a := x.eval(n.Args[0])
 		x.s.c.declare(n.Fn, fmt.Sprintf("(declare-fun %s (Str) Str)", n.Fn))
 		return Val{T: strT, S: app(n.Fn, a.S)}
